@@ -542,7 +542,7 @@ func c19Tricky(x *E) bool {
 	return false
 }
 
-const c19Rule = "per law (idempotence of upper/lower/trim/capitalize; reverse involution; sort = ordered permutation; length = for-iterations = what first/last/slice see (for []byte as mutual agreement, whatever the unit); join/split round trip; list merge = concatenation, also for two merges of the same operand (slices with spare capacity); map merge = later wins + keys once; slice index rules) inputs of every supported type: strings (ASCII, multi-byte, special-casing letters, named string type), untyped lists (for sort also of integers beyond 2^53 that differ by less than a float64 ulp, compared exactly), []int, []string, []float64, [3]int arrays, untyped and typed maps; slice arguments in [-(n+2), n+2] and omitted, written as literals and as nested filter chains; non-trivial = multi-byte string, typed slice/map, negative/out-of-range/omitted argument or empty input; distinct by (law, input, arguments)"
+const c19Rule = "per law (idempotence of upper/lower/trim/capitalize; reverse involution; sort = ordered permutation; length = for-iterations = what first/last/slice see (for []byte as mutual agreement, whatever the unit); join/split round trip (single-character separators, ASCII and multi-byte; lists with empty strings); list merge = concatenation, also for two merges of the same operand (slices with spare capacity); map merge = later wins + keys once; slice index rules) inputs of every supported type: strings (ASCII, multi-byte, special-casing letters, named string type), untyped lists (for sort also of integers beyond 2^53 that differ by less than a float64 ulp, compared exactly), []int, []string, []float64, [3]int arrays, untyped and typed maps; slice arguments in [-(n+2), n+2] and omitted, written as literals and as nested filter chains; non-trivial = multi-byte string, typed slice/map, negative/out-of-range/omitted argument or empty input; distinct by (law, input, arguments)"
 
 func TestC19Laws(t *testing.T) {
 	r := NewRec(t, "C19", c19Rule)
@@ -585,7 +585,12 @@ func TestC19Laws(t *testing.T) {
 			}
 		case "joinsplit":
 			c.X = genListDesc(rt, "str")
-			c.Sep = rapid.SampledFrom([]string{",", "|", ";", "/", "-", "#"}).Draw(rt, "sep")
+			c.Sep = rapid.SampledFrom([]string{",", "|", ";", "/", "-", "#", " ", "\u00b7", "\u2192", "\u2014", "\u00e9", "\U0001F600"}).Draw(rt, "sep")
+			if rapid.IntRange(0, 3).Draw(rt, "withempty") == 0 && len(c.X.A) > 0 {
+				// empty strings are separator-free strings too
+				c.X.A[rapid.IntRange(0, len(c.X.A)-1).Draw(rt, "emptyat")] = Str("")
+				c.X.A = append(c.X.A, Str(""))
+			}
 			// separator-free, non-empty list (join of an empty list splits into [''])
 			for _, a := range c.X.A {
 				a.S = strings.ReplaceAll(a.S, c.Sep, "")
